@@ -4,7 +4,7 @@
     imports, C12 runtime documents / loader, C10 schema declarations). *)
 From V Require Import Base.Util Gql.Ast Peg.Peg Gen.C07_grammar_gen C07.Builder C07.Model.
 From V Require Import C08.Model C08.Spec C08.SiteType Gen.C08_sites_gen C08.Sites C08.ProofsRender C08.ProofsEscape C08.Shape C08.ProofsShape C08.ProofsMerge C08.ImportsCost C08.Proofs.
-From V Require C03.Properties C07.Fuel C11.Properties C12.Properties C13.Properties.
+From V Require C07.Fuel C11.Properties C12.Properties C13.Properties.
 Local Open Scope N_scope.
 
 (** *** diagnostic rendering *)
@@ -23,65 +23,49 @@ Theorem C08_render_index_refuted :
 Proof. exact render_index_refuted. Qed.
 Print Assumptions C08_render_index_refuted.
 
-(** *** unicode escapes in string values *)
-Theorem C08_escape_total_partial : forall ds,
-  ds <> [] -> forallb is_hex ds = true -> is_scalar_value (hexval ds) = true ->
-  code_to_char ds = BOk (hexval ds).
-Proof. exact escape_total_partial. Qed.
-Print Assumptions C08_escape_total_partial.
+(** *** unicode escapes in string values: the former panic witnesses are parse errors, characters parse *)
+Theorem C08_escape_errors_are_diagnostics :
+  parse_class false w_lone_surrogate = 1 /\ parse_class false w_trailing_first = 1 /\
+  parse_class false w_above_max = 1 /\ parse_class false w_overflow = 1 /\ parse_class true w_description = 1.
+Proof. exact escape_errors_are_diagnostics. Qed.
+Print Assumptions C08_escape_errors_are_diagnostics.
 
-Theorem C08_escape_panic_iff : forall ds k,
-  ds <> [] -> forallb is_hex ds = true ->
-  (code_to_char ds = BPanic k <->
-   (k = P_radix /\ 4294967296 <= hexval ds) \/
-   (k = P_char /\ hexval ds < 4294967296 /\ is_scalar_value (hexval ds) = false)).
-Proof. exact escape_panic_iff. Qed.
-Print Assumptions C08_escape_panic_iff.
+Theorem C08_escape_characters_parse :
+  parse_class false w_long_but_small = 0 /\ parse_class false w_surrogate_pair = 0.
+Proof. exact escape_characters_parse. Qed.
+Print Assumptions C08_escape_characters_parse.
 
-Theorem C08_escape_total_refuted :
-  parse_class false w_lone_surrogate = 10 + P_char /\
-  parse_class false w_above_max = 10 + P_char /\
-  parse_class false w_overflow = 10 + P_radix /\
-  parse_class true w_description = 10 + P_char.
-Proof. exact escape_total_refuted. Qed.
-Print Assumptions C08_escape_total_refuted.
-
-(** *** the builder on pest's pair trees: for EVERY operation text, the only panics the parser model can
-    produce are the two value-level ones of string escapes -- none of the parts!/only_child/all_children/
-    "Unexpected rule"/split_at/operation-type/escape-sequence panics, and never "Empty document" *)
-Theorem C08_builder_shapes_ok : forall inp file k,
-  parse_operation_document file inp = PPanic k -> k = P_char \/ k = P_radix.
+(** *** the parser on EVERY text: pest on the translated grammar, the validation pass and the builder reach
+    none of their panics (parts!/only_child/all_children/"Unexpected rule"/split_at/operation type/escape
+    sequence/"Invalid character code"/"Empty document") -- the result is a document or a ParseError *)
+Theorem C08_builder_shapes_ok : forall inp file k, parse_operation_document file inp <> PPanic k.
 Proof. exact builder_shapes_ok. Qed.
 Print Assumptions C08_builder_shapes_ok.
 
-Theorem C08_builder_shapes_ok_ts : forall inp file k,
-  parse_type_system_document file inp = PPanic k -> k = P_char \/ k = P_radix.
+Theorem C08_builder_shapes_ok_ts : forall inp file k, parse_type_system_document file inp <> PPanic k.
 Proof. exact builder_shapes_ok_ts. Qed.
 Print Assumptions C08_builder_shapes_ok_ts.
 
-(** the parse stage as a whole (with C07's fuel-sufficiency theorem): a document, a ParseError, or one of
-    the two escape panics -- the model never runs out of fuel, i.e. parsing terminates *)
+(** with C07's fuel-sufficiency theorem: parsing terminates with Ok or Err *)
 Theorem C08_parse_total : forall file inp,
-  ((exists d, parse_operation_document file inp = POk d) \/ parse_operation_document file inp = PErr \/
-   parse_operation_document file inp = PPanic P_char \/ parse_operation_document file inp = PPanic P_radix) /\
-  ((exists d, parse_type_system_document file inp = POk d) \/ parse_type_system_document file inp = PErr \/
-   parse_type_system_document file inp = PPanic P_char \/ parse_type_system_document file inp = PPanic P_radix).
+  ((exists d, parse_operation_document file inp = POk d) \/ parse_operation_document file inp = PErr) /\
+  ((exists d, parse_type_system_document file inp = POk d) \/ parse_type_system_document file inp = PErr).
 Proof.
   intros file inp. split.
   - pose proof (C07.Fuel.parse_operation_document_never_fuel file inp) as Hf.
     pose proof (builder_shapes_ok inp file) as Hs.
-    destruct (parse_operation_document file inp) as [d| |k|]; [left; eexists; reflexivity|right; left; reflexivity| |congruence].
-    destruct (Hs k eq_refl) as [->| ->]; [right; right; left|right; right; right]; reflexivity.
+    destruct (parse_operation_document file inp) as [d| |k|]; [left; eexists; reflexivity|right; reflexivity| |congruence].
+    exfalso. exact (Hs k eq_refl).
   - pose proof (C07.Fuel.parse_type_system_document_never_fuel file inp) as Hf.
     pose proof (builder_shapes_ok_ts inp file) as Hs.
-    destruct (parse_type_system_document file inp) as [d| |k|]; [left; eexists; reflexivity|right; left; reflexivity| |congruence].
-    destruct (Hs k eq_refl) as [->| ->]; [right; right; left|right; right; right]; reflexivity.
+    destruct (parse_type_system_document file inp) as [d| |k|]; [left; eexists; reflexivity|right; reflexivity| |congruence].
+    exfalso. exact (Hs k eq_refl).
 Qed.
 Print Assumptions C08_parse_total.
 
 (** what a successful run of the PEG interpreter can produce (any grammar): the generic lemma behind it *)
 Theorem C08_parse_forest_generated : forall (R : Type) (g : grammar R) inp fuel start ps,
-  parse_with g fuel start inp = Ok ps -> exists t, gent g inp true ANon (Call start) t ps.
+  parse_with g fuel start inp = Ok ps -> exists t, gent g inp (fun _ => True) true ANon (Call start) t ps.
 Proof. intros R g inp fuel start ps. apply parse_gent. Qed.
 Print Assumptions C08_parse_forest_generated.
 
@@ -108,23 +92,23 @@ Theorem C08_imports_terminate : forall st root_path root,
 Proof. exact C13.Properties.C13_imports_terminate. Qed.
 Print Assumptions C08_imports_terminate.
 
-Theorem C08_imports_total_partial : forall st root_path root ks,
-  C13.Spec.closed_b st root_path root ks = true ->
-  C13.Spec.names_guard_b st ks (C13.Spec.all_lines st root_path root ks) = true ->
-  C13.Model.resolve_imports st root_path root <> inl C13.Model.PanicMissingTarget.
-Proof. exact C13.Properties.C13_no_panic. Qed.
-Print Assumptions C08_imports_total_partial.
+(** since /repo 3dc6a57 the resolver has no panic site: its model's error type has no panic value *)
+Theorem C08_imports_total : forall st root_path root,
+  (exists ds, C13.Model.resolve_imports st root_path root = inr ds) \/
+  (exists file p, C13.Model.resolve_imports st root_path root = inl (C13.Model.FileNotFound file p)) \/
+  (exists n file p, C13.Model.resolve_imports st root_path root = inl (C13.Model.FragmentNotFound n file p)).
+Proof.
+  intros st root_path root. pose proof (C13.Properties.C13_imports_terminate st root_path root) as Ht.
+  destruct (C13.Model.resolve_imports st root_path root) as [[f p|n f p|]|ds].
+  - right; left; eauto.
+  - right; right; eauto.
+  - congruence.
+  - left; eauto.
+Qed.
+Print Assumptions C08_imports_total.
 
-Theorem C08_imports_total_refuted :
-  exists root, C13.Model.resolve_extensions C13.Proofs.main_dup_items = inr root
-               /\ C13.Model.resolve_imports C13.Proofs.st_dup C13.Proofs.k_main root = inl C13.Model.PanicMissingTarget
-               /\ ~ C13.Spec.BadLine C13.Proofs.st_dup C13.Proofs.k_main (C13.Model.fimports root).
-Proof. exact C13.Properties.C13_dup_target_refuted. Qed.
-Print Assumptions C08_imports_total_refuted.
-
-(** runtime documents (print_js: CLI after check, loader without): total when every reachable fragment is
-    defined, a panic otherwise -- which `check` does not exclude for fragments nothing spreads, and the loader
-    never checks *)
+(** runtime documents (print_js): total when every reachable fragment is defined -- check validates every
+    fragment definition (c67e45e) and the loader tests the condition itself (539df4b) *)
 Theorem C08_emit_total_partial : forall defs o,
   (forall n, C12.Spec.reach (C12.Model.get_frag defs) (op_sel o) n -> C12.Model.get_frag defs n <> None) ->
   exists ds, C12.Model.operation_runtime defs o = C12.Model.Ok ds.
@@ -133,23 +117,6 @@ Proof.
   eexists; exact E.
 Qed.
 Print Assumptions C08_emit_total_partial.
-
-Theorem C08_emit_total_refuted :
-  exists defs f,
-    In (DFrag f) defs
-    /\ (forall o n, In (DOp o) defs -> ~ C12.Spec.reach (C12.Model.get_frag defs) (op_sel o) n)
-    /\ C12.Model.runtime_defs defs (DFrag f) = C12.Model.Panic C12.Model.msg_fragment_not_found
-    /\ C12.Model.document_runtime_texts (mkOpDoc pos0 defs) = C12.Model.Panic C12.Model.msg_fragment_not_found.
-Proof. exact C12.Properties.C12_undefined_spread_panics_refuted. Qed.
-Print Assumptions C08_emit_total_refuted.
-
-(** check accepts a document whose unspread fragment selects an unknown field -- the document on which
-    print_types_for_operation_document then panics ('Type system error') *)
-Theorem C08_check_then_generate_refuted :
-  exists S D, C03.Model.check_operation_document S D = [] /\ C03.Spec.rule_ok S D C03.Spec.R_fields_exist = false.
-Proof. exact C03.Properties.C03_unspread_fragment_refuted. Qed.
-Print Assumptions C08_check_then_generate_refuted.
-
 
 (** check does not implement Field Selection Merging: it accepts two selections with one response key and
     different shapes, on which the type printer's deep merge panics (parser, checker and printer models
